@@ -224,6 +224,10 @@ void Groups::evalArguments( int argc, char* argv[]) noexcept( false)
       for (auto const& stored_group : mArgGroups)
       {
          stored_group.mpArgHandler->checkMissingMandatoryCardinality();
+         // same final checks as in Handler::evalArguments(): arguments required
+         // through constraints and the constraints of the handler itself
+         stored_group.mpArgHandler->mConstraints.checkRequired();
+         stored_group.mpArgHandler->checkGlobalConstraints();
       } // end for
    } // end if
 
